@@ -63,5 +63,4 @@ def check(tier):
 
 
 def replay(payload):
-    print("C13 replays by re-running the check with the same VERIF_SEED; event:", json.dumps(payload.get("event"))[:800])
-    return 2
+    return core.replay_by_rerun("C13", check, payload, keys=("mode", "form", "cl", "cr", "input"))
